@@ -95,7 +95,20 @@ ASSUMPTIONS = [
     "arguments always have the documented Python types (client-side "
     "TypeError/ValueError paths are not part of the model)",
 ]
-SENSITIVITY = []
+SENSITIVITY = [
+    "MainProvider._get_instance: _get_bare_instance(copy=True) -> copy=False (GetInstance hands out the stored object) -> store:get:ok:missing-property, isolation:get-result:missing-property",
+    "InstanceWriteProvider.create_new_instance_path: strict=True -> strict=False -> status:create:succeeded-instead-of-INVALID_PARAMETER[missing-key]",
+    "ProviderDispatcher.DeleteInstance: existence check removed -> leak:delete:KeyError@_inmemoryrepository:delete:raiseKeyError",
+    "ProviderDispatcher.ModifyInstance: key-change check removed -> leak:modify:KeyError@_inmemoryrepository:update:raiseKeyError, status:modify:succeeded-instead-of-INVALID_PARAMETER[key-change]",
+    "ProviderDispatcher.ModifyInstance: deepcopy(ModifiedInstance) removed -> isolation:modify-arg:value-diff",
+    "MainProvider._get_subclass_list_for_enums: deep=False (only direct subclasses enumerated) -> readback:EnumerateInstances:missing",
+    "InMemoryObjectStore.create: duplicate check removed (silent overwrite) -> status:create:succeeded-instead-of-ALREADY_EXISTS[already-exists]",
+    "BaseProvider.filter_properties: case-sensitive PropertyList compare -> result:get:value-diff / result:get:missing-property, result:enum:...",
+    "ProviderDispatcher.ModifyInstance: properties outside PropertyList no longer dropped -> store:modify[pl]:ok:value-diff, store:modify[pl]:ok:unexpected-property",
+    "MainProvider.EnumerateInstances: DeepInheritance default inverted -> readback:EnumerateInstances:missing-property",
+    "ProviderDispatcher.ModifyInstance: class name comparison made case-sensitive -> status:modify:INVALID_PARAMETER-instead-of-success[none]",
+    "NOT caught (equivalent through the public API, other copies still isolate): ProviderDispatcher.CreateInstance deepcopy(NewInstance) removed; EnumerateInstanceNames path.copy() removed; InMemoryObjectStore.iter_values without deepcopy; duplicate PropertyList names kept",
+]
 
 STRINGS = S.cim_string(max_size=12)
 NS_POOL = ['root/cimv2', 'Root/Other', 'interop']
@@ -110,6 +123,8 @@ KEY_POOL = {
     'datetime': [('ts', 2020, 1, 1, 0, 0, 0, 0, 0), ('iv', 1, 0, 0),
                  ('ts', 2020, 1, 1, 1, 0, 0, 0, 60)],
 }
+PROP_TYPES = S.SIMPLE_TYPES + ['string', 'string', 'string', 'char16',
+                                'char16']
 EMB_CLASS = 'TST_Emb'
 EMB_MOF = """
 class TST_Emb {
@@ -124,6 +139,11 @@ _E = {CIM_ERR_INVALID_NAMESPACE: 'INVALID_NAMESPACE',
       CIM_ERR_INVALID_CLASS: 'INVALID_CLASS',
       CIM_ERR_NOT_FOUND: 'NOT_FOUND',
       CIM_ERR_ALREADY_EXISTS: 'ALREADY_EXISTS'}
+
+
+_PROPERTY_REASONS = {'unknown-property', 'type-mismatch',
+                     'arrayness-mismatch', 'embedded-scalar-unqualified',
+                     'embedded-array-unqualified'}
 
 
 def _ename(code):
@@ -155,13 +175,13 @@ def g_schema(draw):
                               'is_array': False, 'key': True, 'value': None,
                               'embedded': None, 'refclass': None})
         for k in range(draw(st.sampled_from([0, 1, 2, 2, 3]))):
-            t = S.SIMPLE_TYPES[draw(S._I100) % len(S.SIMPLE_TYPES)]
-            is_arr = draw(S._I10) < 3
+            t = PROP_TYPES[draw(S._I100) % len(PROP_TYPES)]
+            is_arr = draw(S._I10) < (5 if t == 'string' else 3)
             emb = None
             if t == 'string' and draw(S._I10) < 3:
                 emb = 'instance' if draw(S._B) else 'object'
             dflt = None
-            if emb is None and draw(S._I10) < 4:
+            if emb is None and draw(S._I10) < (7 if t == 'char16' else 4):
                 if is_arr:
                     dflt = [S._g_scalar(draw, t, 0, STRINGS)
                             for _ in range(draw(S._I10) % 3)]
@@ -225,8 +245,11 @@ def b_inst(r):
     props = [CIMProperty(n, S.build_value(t, v), type=t, is_array=a,
                          embedded_object=e)
              for (n, t, a, v, e) in r['props']]
-    return CIMInstance(r['cls'], properties=props,
-                       path=S.build(r.get('path')))
+    inst = CIMInstance(r['cls'], properties=props)
+    # set afterwards: the constructor would propagate key property values
+    # into the keybindings of the path (deprecated pywbem behaviour)
+    inst.path = S.build(r.get('path'))
+    return inst
 
 
 def b_plist(pl):
@@ -768,8 +791,10 @@ class Machine:
         elif how == 'embedded-unqualified':
             plain = [j for j in nonkey if props[j][1] == 'string' and
                      not props[j][4]]
+            plain.sort(key=lambda j: not props[j][2])    # arrays first
             if plain:
-                j = plain[0]
+                j = plain[0] if draw(S._B) else \
+                    plain[draw(S._I10) % len(plain)]
                 n, t, a, v, e = props[j]
                 emb = _g_emb(draw)
                 props[j] = (n, t, a, [emb] if a else emb, 'instance')
@@ -998,25 +1023,46 @@ class Machine:
 
     def _check_props(self, ci, props, designated=None):
         """
-        -> (errs, may): INVALID_PARAMETER conditions of an instance's
-        properties against class ci; `designated`: lower-cased names that
-        are to be modified (None = all).
+        -> (errs, may, reasons): INVALID_PARAMETER conditions of an
+        instance's properties against class ci; `designated`: lower-cased
+        names that are to be modified (None = all).
         """
-        errs, may = set(), set()
+        errs, may, reasons = set(), set(), []
         for n, t, a, v, e in props:
             cp = self.pm[ci].get(n.lower())
-            bad = (cp is None or t != cp['type'] or a != cp['is_array'] or
-                   (has_emb_inst(v) and cp['embedded'] is None))
-            if bad:
+            why = None
+            if cp is None:
+                why = 'unknown-property'
+            elif t != cp['type']:
+                why = 'type-mismatch'
+            elif a != cp['is_array']:
+                why = 'arrayness-mismatch'
+            elif has_emb_inst(v) and cp['embedded'] is None:
+                why = 'embedded-array-unqualified' if isinstance(v, list) \
+                    else 'embedded-scalar-unqualified'
+            if why:
                 if designated is None or n.lower() in designated:
                     errs.add(CIM_ERR_INVALID_PARAMETER)
+                    reasons.append(why)
                 else:
                     may.add(CIM_ERR_INVALID_PARAMETER)
-        return errs, may
+        return errs, may, reasons
 
-    def _pvals(self, props):
-        return {n.lower(): (t, a, vcanon(S.build_value(t, v), EXACT))
-                for n, t, a, v, e in props}
+    def _pvals(self, props, ci):
+        """
+        {lower name: (type, is_array, canonical value)}; key properties are
+        compared by CIM value equality like the keybindings (-0.0 == 0.0,
+        same instant with another UTC offset)
+        """
+        out = {}
+        for n, t, a, v, e in props:
+            cp = self.pm[ci].get(n.lower())
+            val = S.build_value(t, v)
+            if cp is not None and cp['key'] and not a:
+                out[n.lower()] = (t, a, kcanon(val))
+            else:
+                out[n.lower()] = (t, a, vcanon(val, EXACT))
+        return out
 
     def _expect_create(self, step):
         inst = step['inst']
@@ -1026,22 +1072,28 @@ class Machine:
             ns = inst['path']['namespace']
         nsi = self._nsi(ns)
         exp = {'errs': set(), 'may': set(), 'effect': None, 'ident': None,
-               'nsi': nsi}
+               'nsi': nsi, 'reasons': []}
         if nsi is None:
             exp['errs'].add(CIM_ERR_INVALID_NAMESPACE)
+            exp['reasons'].append('namespace')
             return exp
         ci = self._ci(inst['cls'], nsi)
         if ci is None:
             exp['errs'].add(CIM_ERR_INVALID_CLASS)
+            exp['reasons'].append('class')
             return exp
-        errs, _ = self._check_props(ci, inst['props'])
+        errs, _, reasons = self._check_props(ci, inst['props'])
         given = {n.lower(): (t, v) for n, t, a, v, e in inst['props']}
         kv = []
         keys_ok = True
         for p in self.keys[ci]:
             g = given.get(p['name'].lower())
-            if g is None or g[1] is None:
+            if g is None:
                 keys_ok = False
+                reasons.append('missing-key')
+            elif g[1] is None:
+                keys_ok = False
+                reasons.append('null-key')
             elif g[0] != p['type']:
                 keys_ok = False     # mistyped key: already INVALID_PARAMETER
             else:
@@ -1054,15 +1106,21 @@ class Machine:
             exp['ident'] = ident
             if ident in self.model:
                 errs.add(CIM_ERR_ALREADY_EXISTS)
+                reasons.append('already-exists')
             exp['effect'] = ('create', {
                 'ident': ident, 'nsi': nsi, 'ci': ci,
-                'props': self._pvals(inst['props']),
+                'props': self._pvals(inst['props'], ci),
                 'path': {'k': 'ipath',
                          'classname': self.classes[ci]['name'],
                          'keys': kv, 'namespace': self.nss[nsi],
                          'host': None}})
         exp['errs'] = errs
+        exp['reasons'] = reasons
         return exp
+
+    _LOOKUP_REASON = {CIM_ERR_INVALID_NAMESPACE: 'namespace',
+                      CIM_ERR_INVALID_CLASS: 'class',
+                      CIM_ERR_NOT_FOUND: 'not-found'}
 
     def _lookup(self, path):
         "-> (errs, nsi, ci, ident, entry) for a target path recipe"
@@ -1081,18 +1139,20 @@ class Machine:
     def _expect_modify(self, step):
         inst = step['inst']
         path = inst['path']
-        exp = {'errs': set(), 'may': set(), 'effect': None}
+        exp = {'errs': set(), 'may': set(), 'effect': None, 'reasons': []}
         mismatch = inst['cls'].lower() != path['classname'].lower()
         errs, nsi, ci, ident, ent = self._lookup(path)
+        errs = set(errs)
+        reasons = [self._LOOKUP_REASON[c] for c in errs]
         if mismatch:
-            errs = set(errs)
             errs.add(CIM_ERR_INVALID_PARAMETER)
+            reasons.append('classname-mismatch')
             if nsi is not None and self._ci(inst['cls'], nsi) is None:
                 errs.add(CIM_ERR_INVALID_CLASS)
-            exp['errs'] = errs
+            exp['errs'], exp['reasons'] = errs, reasons
             return exp
         if ci is None:
-            exp['errs'] = errs
+            exp['errs'], exp['reasons'] = errs, reasons
             return exp
         pl = plist_names(step['plist'])
         pl_l = None
@@ -1101,29 +1161,29 @@ class Machine:
             for n in pl:
                 if n.lower() not in self.pm[ci]:
                     errs.add(CIM_ERR_INVALID_PARAMETER)
+                    reasons.append('plist-unknown-property')
                 elif n.lower() not in pl_l:
                     pl_l.append(n.lower())
-        e2, may = self._check_props(ci, inst['props'], pl_l)
+        e2, may, r2 = self._check_props(ci, inst['props'], pl_l)
         errs |= e2
-        given = self._pvals(inst['props'])
+        reasons += r2
+        given = self._pvals(inst['props'], ci)
         keyl = set(p['name'].lower() for p in self.keys[ci])
         if ent is not None:
+            old = dict(ent['ident'][2])
             for ln, (t, a, cv) in given.items():
-                if ln in keyl and self.pm[ci][ln]['type'] == t and not a:
-                    new = [kcanon(S.build_value(t, v))
-                           for n, t2, a2, v, e in inst['props']
-                           if n.lower() == ln][0]
-                    old = dict(ent['ident'][2])[ln]
-                    if new != old:
-                        if pl_l is None or ln in pl_l:
-                            errs.add(CIM_ERR_INVALID_PARAMETER)
-                        else:
-                            may.add(CIM_ERR_INVALID_PARAMETER)
+                if ln in keyl and self.pm[ci][ln]['type'] == t and not a \
+                        and cv != old[ln]:
+                    if pl_l is None or ln in pl_l:
+                        errs.add(CIM_ERR_INVALID_PARAMETER)
+                        reasons.append('key-change')
+                    else:
+                        may.add(CIM_ERR_INVALID_PARAMETER)
             if pl_l is not None:
                 for ln in pl_l:
                     if ln in keyl and ln not in given:
                         may.add(CIM_ERR_INVALID_PARAMETER)
-        exp['errs'], exp['may'] = errs, may
+        exp['errs'], exp['may'], exp['reasons'] = errs, may, reasons
         if ent is not None:
             newp = dict(ent['props'])
             if pl_l is None:
@@ -1156,9 +1216,16 @@ class Machine:
 
     # ---- comparing results -----------------------------------------------
 
-    def _inst_props(self, inst):
-        return {n.lower(): (p.type, bool(p.is_array), vcanon(p.value, EXACT))
-                for n, p in inst.properties.items()}
+    def _inst_props(self, inst, ci):
+        out = {}
+        for n, p in inst.properties.items():
+            cp = self.pm[ci].get(n.lower())
+            if cp is not None and cp['key'] and not p.is_array:
+                out[n.lower()] = (p.type, False, kcanon(p.value))
+            else:
+                out[n.lower()] = (p.type, bool(p.is_array),
+                                  vcanon(p.value, EXACT))
+        return out
 
     def _allowed(self, ent, plist, limit_ci=None):
         "expected properties of an entry under the filters"
@@ -1173,17 +1240,25 @@ class Machine:
 
     @staticmethod
     def _diff_props(want, got):
-        "None or text; absent == NULL"
+        "None or (kind, text); absent == NULL"
         for n in sorted(set(want) | set(got)):
             w, g = want.get(n), got.get(n)
             if w is not None and g is not None:
+                if w[:2] != g[:2]:
+                    return ('type-changed:%s->%s' % (
+                        w[0] if w[0] != g[0] else 'array=%s' % w[1],
+                        g[0] if w[0] != g[0] else 'array=%s' % g[1]),
+                        'property %s: expected %r, got %r' % (n, w, g))
                 if w != g:
-                    return 'property %s: expected %r, got %r' % (n, w, g)
+                    return ('value-diff',
+                            'property %s: expected %r, got %r' % (n, w, g))
             elif w is None:
                 if g[2] is not None:
-                    return 'unexpected property %s = %r' % (n, g)
+                    return ('unexpected-property',
+                            'unexpected property %s = %r' % (n, g))
             elif w[2] is not None:
-                return 'property %s missing, expected %r' % (n, w)
+                return ('missing-property',
+                        'property %s missing, expected %r' % (n, w))
         return None
 
     def _check_inst(self, inst, ent, plist, limit_ci, what):
@@ -1203,9 +1278,9 @@ class Machine:
                     % (what, inst.classname,
                        self.classes[ent['ci']]['name']))
         d = self._diff_props(self._allowed(ent, plist, limit_ci),
-                             self._inst_props(inst))
+                             self._inst_props(inst, ent['ci']))
         if d:
-            return ('value-diff', '%s: %s' % (what, d))
+            return (d[0], '%s: %s' % (what, d[1]))
         return None
 
     def _expected_members(self, nsi, ci):
@@ -1243,7 +1318,12 @@ class Machine:
         return None
 
     def _check_store(self):
-        "read everything back; -> None or (kind, text)"
+        """
+        Read everything back; -> None or (kind, text, source).  source is
+        'GetInstance' when the keyed look-up of a model entry disagrees with
+        the model, else the enumeration that disagrees although all keyed
+        look-ups agree.
+        """
         conn = self.conn
         for ident in sorted(self.model, key=repr):
             ent = self.model[ident]
@@ -1251,28 +1331,32 @@ class Machine:
                 inst = conn.GetInstance(S.build(ent['path']))
             except CIMError as exc:
                 return ('get-%s' % _ename(exc.status_code),
-                        'GetInstance(%r): %s' % (ent['path'], exc))
+                        'GetInstance(%r): %s' % (ent['path'], exc),
+                        'GetInstance')
             bad = self._check_inst(inst, ent, None, None, 'GetInstance')
             if bad:
-                return bad
+                return bad + ('GetInstance',)
         for nsi, ns in enumerate(self.nss):
             for ci, c in enumerate(self.classes):
                 if c['super'] is not None or nsi not in c['nss']:
                     continue
+                src = 'EnumerateInstances'
                 try:
                     r = conn.EnumerateInstances(c['name'], namespace=ns)
                     bad = self._check_enum(r, nsi, ci, None, None, False,
                                            'EnumerateInstances')
                     if bad:
-                        return bad
+                        return bad + (src,)
+                    src = 'EnumerateInstanceNames'
                     r = conn.EnumerateInstanceNames(c['name'], namespace=ns)
                     bad = self._check_enum(r, nsi, ci, None, None, True,
                                            'EnumerateInstanceNames')
                     if bad:
-                        return bad
+                        return bad + (src,)
                 except CIMError as exc:
-                    return ('enum-%s' % _ename(exc.status_code),
-                            'Enumerate*(%r, %r): %s' % (c['name'], ns, exc))
+                    return ('%s' % _ename(exc.status_code),
+                            '%s(%r, %r): %s' % (src, c['name'], ns, exc),
+                            src)
         return None
 
     # ---- execution -------------------------------------------------------
@@ -1296,6 +1380,11 @@ class Machine:
         "compare outcome class with expectation; -> True if as expected"
         ctx = self.ctx
         allowed = exp['errs'] | exp['may']
+        rs = set(exp.get('reasons') or [])
+        why = '+'.join(sorted(rs)) or 'none'
+        if rs and rs <= _PROPERTY_REASONS:
+            # one validation routine serves CreateInstance and ModifyInstance
+            op = 'create-or-modify'
         if out[0] == 'leak':
             ctx.fail('leak:%s:%s' % (op, mock_frame_sig(out[1])),
                      'step %r\nexpected %s\n%s' %
@@ -1304,13 +1393,13 @@ class Machine:
         if out[0] == 'cimerror':
             if out[1] in allowed:
                 return True
-            ctx.fail('status:%s:%s-instead-of-%s' %
-                     (op, _ename(out[1]), self._expname(exp)),
+            ctx.fail('status:%s:%s-instead-of-%s[%s]' %
+                     (op, _ename(out[1]), self._expname(exp), why),
                      'step %r\nraised %s' % (self.step, out[2]))
             return False
         if exp['errs']:
-            ctx.fail('status:%s:succeeded-instead-of-%s' %
-                     (op, self._expname(exp)),
+            ctx.fail('status:%s:succeeded-instead-of-%s[%s]' %
+                     (op, self._expname(exp), why),
                      'step %r\nreturned %r' % (self.step, out[1]))
             return False
         return True
@@ -1340,12 +1429,23 @@ class Machine:
                     ctx.case(nontrivial=False, classes=('mutate:nothing',))
                 return True
             origin, obj = self.held[step['target'] % len(self.held)]
-            if origin == 'create-result' and self.avoid_create_result:
+            if origin == 'create-result' and self.avoid_create_result and \
+                    step['target'] % 10:
+                # listed as known finding: mostly spare the history (the
+                # defect makes the instance unreachable), but keep hitting
+                # it now and then so that the finding stays confirmed
                 obj = obj.copy()
             scribble(obj, step['levels'])
             classes.append('mutate:' + origin)
             self.flags['mutated'] = True
             bad = self._check_store()
+            if bad and bad[2] != 'GetInstance':
+                ctx.fail('readback:%s:%s' % (bad[2], bad[0]),
+                         'all model entries are found by GetInstance, but '
+                         'after a mutate step: %s' % bad[1])
+                ctx.case(key=('step', len(self.log), step),
+                         nontrivial=True, classes=classes)
+                return False
             if bad:
                 ctx.fail('isolation:%s:%s' % (origin, bad[0]),
                          'after scribbling (levels %r) over the object %s '
@@ -1398,6 +1498,7 @@ class Machine:
         elif op == 'delete':
             errs, nsi, ci, ident, ent = self._lookup(step['path'])
             exp = {'errs': errs, 'may': set(),
+                   'reasons': [self._LOOKUP_REASON[c] for c in errs],
                    'effect': ('delete', ident) if ent else None}
             path = S.build(step['path'])
             self._hold('delete-arg', path)
@@ -1410,7 +1511,8 @@ class Machine:
                     self.flags['variant_access'] = True
         elif op == 'get':
             errs, nsi, ci, ident, ent = self._lookup(step['path'])
-            exp = {'errs': errs, 'may': set(), 'effect': None}
+            exp = {'errs': errs, 'may': set(), 'effect': None,
+                   'reasons': [self._LOOKUP_REASON[c] for c in errs]}
             path = S.build(step['path'])
             self._hold('get-arg', path)
             pl = b_plist(step['plist'])
@@ -1427,6 +1529,8 @@ class Machine:
                     ok = False
                 else:
                     self._hold('get-result', out[1])
+                    if step['plist'] is not None:
+                        classes.append('get:with-plist')
                     if label in ('case', 'order', 'numtype'):
                         self.flags['variant_access'] = True
         elif op in ('enum', 'names'):
@@ -1444,7 +1548,8 @@ class Machine:
                 ci = self._ci(cname, nsi)
                 if ci is None:
                     errs.add(CIM_ERR_INVALID_CLASS)
-            exp = {'errs': errs, 'may': set(), 'effect': None}
+            exp = {'errs': errs, 'may': set(), 'effect': None,
+                   'reasons': [self._LOOKUP_REASON[c] for c in errs]}
             cnobj = cn if isinstance(cn, str) else S.build(cn)
             if op == 'enum':
                 pl = b_plist(step['plist'])
@@ -1468,6 +1573,14 @@ class Machine:
                 elif out[1]:
                     self._hold(op + '-result', out[1])
                     classes.append(op + ':nonempty')
+                    if any(self.cls_l.get(
+                            (o if op == 'names' else o.path).classname.lower())
+                           != ci for o in out[1]):
+                        classes.append(op + ':returns-subclass-instances')
+                if op == 'enum' and ci is not None:
+                    classes.append('enum:di=%s' % step['di'])
+                    if step['plist'] is not None:
+                        classes.append('enum:with-plist')
         else:
             raise HarnessError('unknown step %r' % (step,))
 
@@ -1480,9 +1593,16 @@ class Machine:
             classes.append('lenient-error-applies')
         # the store must equal the model after every step
         bad = self._check_store()
-        if bad and ok:
-            ctx.fail('store:%s[%s]:%s:%s' %
-                     (op, label.split('+')[0], outcome, bad[0]),
+        if bad and ok and bad[2] != 'GetInstance':
+            ctx.fail('readback:%s:%s' % (bad[2], bad[0]),
+                     'all model entries are found by GetInstance, but after '
+                     'step %r: %s' % (step, bad[1]))
+        elif bad and ok:
+            what = op
+            if op == 'modify':
+                what = 'modify[pl]' if step['plist'] is not None \
+                    else 'modify'
+            ctx.fail('store:%s:%s:%s' % (what, outcome, bad[0]),
                      'after step %r (outcome %s) the store differs from the '
                      'model: %s' % (step, outcome, bad[1]))
         if self.flags['mutated'] and op in ('get', 'enum', 'names') and \
@@ -1498,8 +1618,15 @@ class Machine:
         f = self.flags
         nontriv = (f['created'] and f['variant_access']) or \
             f['read_after_mutate']
+        depth = 1
+        for i in range(len(self.classes)):
+            d, j = 1, i
+            while self.classes[j]['super'] is not None:
+                d, j = d + 1, self.classes[j]['super']
+            depth = max(depth, d)
         self.ctx.case(nontrivial=nontriv, classes=(
-            'history',
+            'history', 'schema:namespaces=%d' % len(self.nss),
+            'schema:depth=%d' % depth,
             'history:variant-access' if f['variant_access']
             else 'history:no-variant-access',
             'history:read-after-mutate' if f['read_after_mutate']
@@ -1511,6 +1638,6 @@ class Machine:
 
 
 SUBCHECKS = [
-    Sub('history', machine=Machine, quick=(16, 60), thorough=(16, 2400),
-        steps=(40, 80), case_timeout=120, budget=(600, 3000)),
+    Sub('history', machine=Machine, quick=(16, 40), thorough=(16, 1200),
+        steps=(40, 80), case_timeout=120, budget=(1200, 7200)),
 ]
